@@ -42,7 +42,7 @@ impl Prop for P {
     const ENGINE: &'static str = "E3-vecmodel";
 
     fn cases(tier: Tier) -> u32 {
-        tier.pick(8000, 100000)
+        tier.pick(24000, 100000)
     }
 
     fn strategy(tier: Tier) -> BoxedStrategy<Case> {
